@@ -328,6 +328,13 @@ func c18(ctx *Ctx) (*Outcome, error) {
 		{"input is a directory", []string{"-p", "x", "-o", "o.go", "adir"}, true},
 		{"dangling symlink input", []string{"-p", "x", "-o", "o.go", "dangling.json"}, true},
 		{"second input missing", []string{"-p", "x", "-o", "o.go", "a.json", "nope.json"}, true},
+		{"first input missing, second fine", []string{"-p", "x", "-o", "o.go", "nope.json", "a.json"}, true},
+		{"first input broken, second fine", []string{"-p", "x", "-o", "o.go", "broken.json", "a.json"}, true},
+		{"first input ungeneratable, second fine", []string{"-p", "x", "-o", "o.go", "badtype.json", "a.json"}, true},
+		{"first input ungeneratable, second fine, stdout", []string{"-p", "x", "badtype.json", "a.json"}, true},
+		{"middle input ungeneratable", []string{"-p", "x", "-o", "o.go", "a.json", "badref.json", "b.json"}, true},
+		{"middle input broken, outputs mapped", []string{"-p", "x", "--schema-output", "https://example.com/a=oa.go", "--schema-output", "https://example.com/b=ob.go", "-o", "o.go", "a.json", "broken.json", "b.json"}, true},
+		{"last input ungeneratable", []string{"-p", "x", "-o", "o.go", "a.json", "b.json", "badenum.json"}, true},
 		{"second input broken", []string{"-p", "x", "-o", "o.go", "a.json", "broken.json"}, true},
 		{"same output two packages", []string{"--schema-package", "https://example.com/a=example.com/p1", "--schema-output", "https://example.com/a=same.go", "--schema-package", "https://example.com/b=example.com/p2", "--schema-output", "https://example.com/b=same.go", "a.json", "b.json"}, true},
 		{"empty package value", []string{"-p", "", "-o", "o.go", "a.json"}, true},
@@ -339,8 +346,9 @@ func c18(ctx *Ctx) (*Outcome, error) {
 	}
 	for rep := 0; rep < ctx.N(2, 6); rep++ {
 		for _, fc := range flagCases {
-			inv := &cli.Inv{Files: []batch.File{{Path: "a.json", Data: good}, {Path: "b.json", Data: good2}, {Path: "broken.json", Data: []byte(`{"type":`)}, {Path: "empty.json", Data: nil}, {Path: "empty.yaml", Data: nil}, {Path: "adir/keep", Data: []byte("x")}},
-				Args: fc.args, Seed: map[string][]byte{"o.go": []byte(sentinel), "same.go": []byte(sentinel)}, Stdin: []byte("{ not json")}
+			inv := &cli.Inv{Files: []batch.File{{Path: "a.json", Data: good}, {Path: "b.json", Data: good2}, {Path: "broken.json", Data: []byte(`{"type":`)}, {Path: "badtype.json", Data: []byte(`{"$id":"https://example.com/bt","type":"object","properties":{"addr":{"type":"object","properties":{"z":{"type":"string"}}},"w":{"type":"kilogram"}}}`)},
+				{Path: "badref.json", Data: []byte(`{"$id":"https://example.com/br","type":"object","properties":{"r":{"$ref":"#/$defs/Nope"}}}`)}, {Path: "badenum.json", Data: []byte(`{"$id":"https://example.com/be","type":"object","properties":{"e":{"enum":[]}}}`)}, {Path: "empty.json", Data: nil}, {Path: "empty.yaml", Data: nil}, {Path: "adir/keep", Data: []byte("x")}},
+				Args: fc.args, Seed: map[string][]byte{"o.go": []byte(sentinel), "same.go": []byte(sentinel), "oa.go": []byte(sentinel), "ob.go": []byte(sentinel)}, Stdin: []byte("{ not json")}
 			jobs = append(jobs, &c18job{class: "cli:" + fc.label, label: fc.label, inv: inv, must: fc.must, outFile: "o.go"})
 		}
 	}
